@@ -124,14 +124,15 @@ static unsigned gen_l25(St &st, std::vector<tx::Packet> &out) {
 	Bulk bk(s.u32());
 	unsigned mag = 1 + s.pick(8);
 	unsigned pop_page[4], drcs_page[4];
-	for (int i = 0; i < 4; ++i) { pop_page[i] = s.chance(1, 2) ? 0xA0 + s.pick(16) : (s.pick(10) << 4 | s.pick(10)); drcs_page[i] = s.chance(1, 2) ? 0xB0 + s.pick(16) : (s.pick(10) << 4 | s.pick(10)); }
+	for (int i = 0; i < 4; ++i) { pop_page[i] = s.chance(1, 4) ? (s.pick(10) << 4 | s.pick(10)) : 0xA0 + s.pick(16); drcs_page[i] = s.chance(1, 4) ? (s.pick(10) << 4 | s.pick(10)) : 0xB0 + s.pick(16); }
+	unsigned pop_sub = s.pick(4);
 	uint8_t txt[32]; memset(txt, 0x20, 32);
 	tx::HeaderFlags f; f.c4_erase = s.chance(1, 2);
 	auto hamrow = [&](unsigned packet, const std::vector<unsigned> &nib) { tx::Packet p; enc::address(p.b, mag, packet); for (int i = 0; i < 40; ++i) p.b[2 + i] = enc::ham8(i < (int) nib.size() ? nib[(size_t) i] : bk.pick(16)); out.push_back(p); };
 	// MOT
 	out.push_back(tx::header(mag, 0xFE, 0, f, txt));
-	for (unsigned pk = 1; pk <= 8; ++pk) if (s.chance(3, 4)) { std::vector<unsigned> n; for (int i = 0; i < 40; ++i) n.push_back(bk.pick(3) ? bk.pick(4) : bk.pick(16)); hamrow(pk, n); }
-	for (unsigned pk = 19; pk <= 20; ++pk) if (s.chance(3, 4)) {
+	for (unsigned pk = 1; pk <= 8; ++pk) if (s.chance(7, 8)) { std::vector<unsigned> n; for (int i = 0; i < 40; ++i) n.push_back(bk.pick(4) ? 1 + bk.pick(3) : bk.pick(16)); hamrow(pk, n); }
+	for (unsigned pk = 19; pk <= 20; ++pk) if (s.chance(7, 8)) {
 		std::vector<unsigned> n;
 		for (int l = 0; l < 4; ++l) { unsigned pg = pop_page[s.chance(3, 4) ? 0 : s.pick(4)]; n.push_back(mag & 7); n.push_back(pg >> 4); n.push_back(pg & 15); n.push_back(bk.pick(16)); n.push_back(bk.pick(16)); n.push_back(bk.pick(16)); for (int k = 0; k < 4; ++k) n.push_back(bk.pick(16)); }
 		hamrow(pk, n);
@@ -140,7 +141,7 @@ static unsigned gen_l25(St &st, std::vector<tx::Packet> &out) {
 	if (s.chance(1, 3)) { std::vector<unsigned> n; hamrow(22 + s.pick(3), n); }
 	// POP page
 	unsigned pp = pop_page[s.chance(3, 4) ? 0 : s.pick(4)];
-	out.push_back(tx::header(mag, pp, s.pick(4), f, txt));
+	out.push_back(tx::header(mag, pp, pop_sub, f, txt));
 	std::vector<unsigned> ptrs;	// object definition positions (triplet index from packet 3 on)
 	for (int i = 0; i < 8; ++i) ptrs.push_back(s.chance(1, 8) ? 507 + s.pick(5) : s.pick(13 * 10));
 	for (unsigned pk = 1; pk <= 4; ++pk) if (s.chance(3, 4)) {
@@ -174,7 +175,7 @@ static unsigned gen_l25(St &st, std::vector<tx::Packet> &out) {
 		for (auto &x : t) {
 			unsigned w = bk.pick(8);
 			if (w == 0) x = (40 + bk.pick(24)) | (0x04 << 6) | (bk.pick(40) << 11);
-			else if (w <= 2) { unsigned src = 1 + bk.pick(3); x = (40 + (src << 3) + bk.pick(4)) | ((0x11 + bk.pick(3)) << 6) | (bk.pick(128) << 11); }	// object invocation: local / POP / GPOP
+			else if (w <= 2) { unsigned src = 1 + bk.pick(3); x = (40 + ((src - 1) << 3) + bk.pick(8)) | ((0x11 + bk.pick(3)) << 6) | ((bk.pick(4) ? ((bk.pick(8) << 4) | pop_sub) : bk.pick(128)) << 11); }	// object invocation: local / POP / GPOP
 			else if (w == 3) x = bk.pick(40) | (0x0D << 6) | (bk.pick(128) << 11);	// DRCS character
 			else if (w == 4) x = (40 + bk.pick(24)) | (0x18 << 6) | (bk.pick(128) << 11);	// DRCS mode
 			else if (w == 5) x = (40 + bk.pick(24)) | ((0x15 + bk.pick(3)) << 6) | (bk.pick(128) << 11);	// object definition in the page (local objects)
